@@ -158,6 +158,16 @@ func init() {
 		}
 		return ""
 	}
+	c05Never["batch-modify-self-then-other"] = func(wd *world.World, bits [8]byte) string {
+		u, vic := wd.Srv.AccountManager.Get("u"), wd.Srv.AccountManager.Get("vic")
+		if u == nil || vic == nil {
+			return ""
+		}
+		if (u.Name == "uu2") != (vic.Name == "Changed") {
+			return fmt.Sprintf("the request was carried out in part: the requester's own account was edited=%v, the other account was edited=%v", u.Name == "uu2", vic.Name == "Changed")
+		}
+		return ""
+	}
 	c05Never["batch-rename-onto-existing-login"] = func(wd *world.World, bits [8]byte) string {
 		if a := wd.Srv.AccountManager.Get("guest"); (a == nil || a.Name != "Guest") && !ref.BitSet(bits, ref.PDeleteUser) {
 			return fmt.Sprintf("the account 'guest' is now %+v: the account that had the login is gone although the requester may not delete accounts", a)
@@ -285,6 +295,20 @@ var c05Kinds = []c05Kind{
 		return ref.Tx{Type: ref.TUpdateUser, Fields: []ref.Fld{
 			ref.F(ref.FData, subFields(ref.F(ref.FData, obf("vic")))),
 			ref.F(ref.FData, subFields(ref.F(ref.FUserLogin, obf("vic")), ref.FS(ref.FUserName, "Again"), ref.F(ref.FUserPassword, obf("p")), ref.F(ref.FUserAccess, make([]byte, 8))))}}
+	}, ""},
+	// the first entry edits the requester's own account (login u) and takes modify-user away from it; the second edits
+	// another account: the request is carried out as a whole or refused as a whole
+	{"batch-modify-self-then-other", []int{ref.PModifyUser}, func(x c05Ctx) ref.Tx {
+		return ref.Tx{Type: ref.TUpdateUser, Fields: []ref.Fld{
+			ref.F(ref.FData, subFields(ref.F(ref.FUserLogin, obf("u")), ref.FS(ref.FUserName, "uu2"), ref.F(ref.FUserPassword, []byte{0}), ref.F(ref.FUserAccess, make([]byte, 8)))),
+			ref.F(ref.FData, subFields(ref.F(ref.FUserLogin, obf("vic")), ref.FS(ref.FUserName, "Changed"), ref.F(ref.FUserPassword, []byte{0}), ref.F(ref.FUserAccess, make([]byte, 8))))}}
+	}, ""},
+	// the second entry creates an account with more access than the requester holds: refused - before the first is carried out
+	{"batch-modify-then-create-with-more-access", []int{ref.PModifyUser, ref.PCreateUser, ref.PBroadcast}, func(x c05Ctx) ref.Tx {
+		acc := world.Bits(ref.PBroadcast)
+		return ref.Tx{Type: ref.TUpdateUser, Fields: []ref.Fld{
+			ref.F(ref.FData, subFields(ref.F(ref.FUserLogin, obf("vic")), ref.FS(ref.FUserName, "Changed"), ref.F(ref.FUserPassword, []byte{0}), ref.F(ref.FUserAccess, make([]byte, 8)))),
+			ref.F(ref.FData, subFields(ref.F(ref.FUserLogin, obf("nu")), ref.FS(ref.FUserName, "N"), ref.F(ref.FUserPassword, obf("p")), ref.F(ref.FUserAccess, acc[:])))}}
 	}, ""},
 	{"batch-delete", []int{ref.PDeleteUser}, func(x c05Ctx) ref.Tx {
 		return ref.Tx{Type: ref.TUpdateUser, Fields: []ref.Fld{ref.F(ref.FData, subFields(ref.F(ref.FData, obf("vic"))))}}
